@@ -24,6 +24,7 @@ import (
 	"github.com/buchgr/bazel-remote/v2/cache"
 	"github.com/buchgr/bazel-remote/v2/cache/disk"
 	pb "github.com/buchgr/bazel-remote/v2/genproto/build/bazel/remote/execution/v2"
+	"google.golang.org/grpc/codes"
 	"google.golang.org/protobuf/proto"
 )
 
@@ -187,6 +188,75 @@ type c07World struct {
 	log  []string
 	lmu  sync.Mutex
 	open atomic.Int64
+	// opsDone counts completed operations (progress indicator for the hang oracle)
+	opsDone atomic.Int64
+	// "an upload acknowledged before a lookup starts is found": per CAS hash the earliest stamp (same clock as the
+	// register histories) taken AFTER an acknowledged upload of it returned. Judged only in histories in which nothing
+	// can remove an entry (no space pressure, no files damaged underneath).
+	ackMu      sync.Mutex
+	casAck     map[string]int64
+	ghosts     []acctItem          // digests never uploaded anywhere: every existence answer must be "absent"
+	varVals    map[string]struct{} // every marshalled ActionResult whose upload to a validated-AC key started
+	varGhost   map[string]struct{} // those of them that reference a blob that exists nowhere
+	judgeFound bool
+	zenc       map[string][][]byte // per blob: a few zstd encodings (two encoders, several levels), made once per history
+}
+
+// zstdOf returns one of a few zstd encodings of the blob (encoding 1 MiB for every request would dominate the run,
+// most of all under the race detector).
+func (w *c07World) zstdOf(rng *rand.Rand, it acctItem) []byte {
+	w.ackMu.Lock()
+	defer w.ackMu.Unlock()
+	if len(w.zenc[it.hash]) < 3 {
+		w.zenc[it.hash] = append(w.zenc[it.hash], zstdEncodeRand(rng, it.content))
+		return w.zenc[it.hash][len(w.zenc[it.hash])-1]
+	}
+	return w.zenc[it.hash][rng.IntN(3)]
+}
+
+// ackCAS records that an upload of hash has just been acknowledged.
+func (w *c07World) ackCAS(hash string) {
+	t := w.hist.clock.Add(1)
+	w.ackMu.Lock()
+	if cur, ok := w.casAck[hash]; !ok || t < cur {
+		w.casAck[hash] = t
+	}
+	w.ackMu.Unlock()
+}
+
+// lookupStart stamps the beginning of a lookup.
+func (w *c07World) lookupStart() int64 { return w.hist.clock.Add(1) }
+
+// absent judges a lookup of hash that started at stamp start and answered "absent" on path.
+func (w *c07World) absent(path, hash string, start int64) {
+	w.r.Count("found-rule." + path + ".absent")
+	if !w.judgeFound {
+		return
+	}
+	w.ackMu.Lock()
+	t, ok := w.casAck[hash]
+	w.ackMu.Unlock()
+	if ok && t < start {
+		w.r.Violation("C07:acknowledged-upload-not-found:"+path, fmt.Sprintf("%s of CAS blob %s started (stamp %d) after an upload of it had been acknowledged (stamp %d) and answered absent, in a history without space pressure or damaged files", path, hash[:12], start, t), w.detail(map[string]any{"hash": hash}))
+	}
+}
+
+// present judges an existence answer "present" on path (ghost digests must never be present).
+func (w *c07World) present(path, hash string) {
+	w.r.Count("found-rule." + path + ".present")
+	for _, g := range w.ghosts {
+		if g.hash == hash {
+			w.r.Violation("C07:never-uploaded-reported-present:"+path, fmt.Sprintf("%s answered present for digest %s that was never uploaded anywhere", path, hash[:12]), w.detail(nil))
+		}
+	}
+}
+
+// pickLookup returns a pool blob or (one time in six) a ghost digest.
+func (w *c07World) pickLookup(rng *rand.Rand) acctItem {
+	if len(w.ghosts) > 0 && rng.IntN(6) == 0 {
+		return w.ghosts[rng.IntN(len(w.ghosts))]
+	}
+	return w.cas[rng.IntN(len(w.cas))]
 }
 
 func (w *c07World) note(f string, a ...any) {
@@ -297,6 +367,9 @@ func (w *c07World) casOp(client int, rng *rand.Rand) {
 	case 0, 1:
 		err := w.c.Put(ctx, cache.CAS, it.hash, n, bytes.NewReader(it.content))
 		w.r.Count("op.casput." + okStr(err == nil))
+		if err == nil {
+			w.ackCAS(it.hash)
+		}
 		if err != nil && !w.o.pressure && !errors.Is(err, context.Canceled) {
 			// no space pressure in this history: nothing the other clients do may make a well-formed upload fail
 			w.r.Violation("C07:valid-upload-refused", fmt.Sprintf("a well-formed CAS upload failed under concurrency without space pressure: %v", err), w.detail(map[string]any{"hash": it.hash, "size": n}))
@@ -321,6 +394,10 @@ func (w *c07World) casOp(client int, rng *rand.Rand) {
 		}
 		w.r.Count("op.casput-bad")
 	case 3, 4, 5, 6:
+		if rng.IntN(8) == 0 {
+			it = w.pickLookup(rng)
+			n = int64(len(it.content))
+		}
 		size, off := n, int64(0)
 		zs := false
 		switch rng.IntN(4) {
@@ -336,7 +413,10 @@ func (w *c07World) casOp(client int, rng *rand.Rand) {
 		var rc io.ReadCloser
 		var fs int64
 		var err error
+		path := "get"
+		start := w.lookupStart()
 		if zs {
+			path = "getzstd"
 			rc, fs, err = w.c.GetZstd(ctx, it.hash, size, off)
 		} else {
 			rc, fs, err = w.c.Get(ctx, cache.CAS, it.hash, size, off)
@@ -347,8 +427,10 @@ func (w *c07World) casOp(client int, rng *rand.Rand) {
 		}
 		if rc == nil {
 			w.r.Count("op.casget.miss")
+			w.absent(path, it.hash, start)
 			return
 		}
+		w.present(path, it.hash)
 		data, rerr := io.ReadAll(rc)
 		_ = rc.Close()
 		if rerr == nil && zs {
@@ -363,16 +445,45 @@ func (w *c07World) casOp(client int, rng *rand.Rand) {
 		}
 		w.r.Count("op.casget.hit")
 	case 7:
-		_, _ = w.c.Contains(ctx, cache.CAS, it.hash, n)
+		it = w.pickLookup(rng)
+		start := w.lookupStart()
+		if ok, _ := w.c.Contains(ctx, cache.CAS, it.hash, int64(len(it.content))); ok {
+			w.present("contains", it.hash)
+		} else {
+			w.absent("contains", it.hash, start)
+		}
 		w.r.Count("op.contains")
 	case 8:
 		var ds []*pb.Digest
 		for i := 0; i < 1+rng.IntN(30); i++ {
-			x := w.cas[rng.IntN(len(w.cas))]
+			x := w.pickLookup(rng)
 			ds = append(ds, &pb.Digest{Hash: x.hash, SizeBytes: int64(len(x.content))})
 		}
-		_, _ = w.c.FindMissingCasBlobs(ctx, ds)
+		start := w.lookupStart()
+		missing, err := w.c.FindMissingCasBlobs(ctx, append([]*pb.Digest(nil), ds...)) // (the call edits the slice it is given)
 		w.r.Count("op.findmissing")
+		if err == nil {
+			w.judgeFindMissing("findmissing", ds, missing, start)
+		}
+	}
+}
+
+func (w *c07World) judgeFindMissing(path string, asked, missing []*pb.Digest, start int64) {
+	miss := map[string]bool{}
+	for _, d := range missing {
+		miss[d.Hash] = true
+	}
+	seen := map[string]bool{}
+	for _, d := range asked {
+		if seen[d.Hash] {
+			continue
+		}
+		seen[d.Hash] = true
+		if miss[d.Hash] {
+			w.absent(path, d.Hash, start)
+		} else {
+			w.present(path, d.Hash)
+		}
 	}
 }
 
@@ -382,21 +493,77 @@ func (w *c07World) validatedOp(rng *rand.Rand) {
 	if rng.IntN(3) == 0 {
 		// a valid ActionResult referencing pool blobs (several of which may be absent everywhere: fail-fast path)
 		ar := &pb.ActionResult{ExecutionMetadata: &pb.ExecutedActionMetadata{Worker: "c07"}}
+		ghost := false
 		for i := 0; i < 2+rng.IntN(30); i++ {
 			x := w.cas[rng.IntN(len(w.cas))]
 			d := &pb.Digest{Hash: x.hash, SizeBytes: int64(len(x.content))}
 			if rng.IntN(4) == 0 {
 				d = &pb.Digest{Hash: lib.RandHash(rng), SizeBytes: 77}
+				ghost = true
 			}
 			ar.OutputFiles = append(ar.OutputFiles, &pb.OutputFile{Path: fmt.Sprintf("o%d", i), Digest: d})
 		}
 		b, _ := proto.Marshal(ar)
+		w.ackMu.Lock()
+		w.varVals[string(b)] = struct{}{}
+		if ghost {
+			w.varGhost[string(b)] = struct{}{}
+		}
+		w.ackMu.Unlock()
 		_ = w.c.Put(ctx, cache.AC, k, int64(len(b)), bytes.NewReader(b))
 		w.r.Count("op.varput")
 		return
 	}
-	_, _, _ = w.c.GetValidatedActionResult(ctx, k)
+	res, data, err := w.c.GetValidatedActionResult(ctx, k)
 	w.r.Count("op.getvalidated")
+	if err == nil && res != nil {
+		// a hit is the complete bytes of one upload to a validated key, and every blob it references exists
+		w.r.Count("op.getvalidated.hit")
+		w.ackMu.Lock()
+		_, written := w.varVals[string(data)]
+		_, ghost := w.varGhost[string(data)]
+		w.ackMu.Unlock()
+		if !written {
+			w.r.Violation("C07:torn-read:validated-ac", fmt.Sprintf("the validated action-cache lookup returned %d bytes that no upload wrote", len(data)), w.detail(nil))
+		} else if ghost {
+			w.r.Violation("C07:validated-hit-with-absent-blob", "the validated action-cache lookup answered a hit for an ActionResult that references a blob existing nowhere, under concurrency", w.detail(nil))
+		}
+	}
+}
+
+// srvUploaded judges the outcome of a well-formed upload through a front end: without space pressure nothing the
+// other clients do may make it fail; an acknowledged one is recorded for the found-rule.
+func (w *c07World) srvUploaded(path string, it acctItem, ctx context.Context, err error, detail string) {
+	w.r.Count("op.srv." + path + "." + okStr(err == nil))
+	if err == nil {
+		w.ackCAS(it.hash)
+		return
+	}
+	if ctx.Err() != nil || w.o.pressure {
+		return // harness watchdog expired (slow machine) / the cache is full most of the time
+	}
+	w.r.Violation("C07:valid-upload-refused:"+path, fmt.Sprintf("a well-formed upload of %d bytes through %s failed under concurrency without space pressure: %s", len(it.content), path, detail), w.detail(map[string]any{"hash": it.hash}))
+}
+
+// srvRead judges one read through a front end: absent (found-rule), complete and correct, or - without damaged
+// files - never an error after the transfer began.
+func (w *c07World) srvRead(path string, it acctItem, start int64, absent bool, got []byte, midStreamErr error, want []byte) {
+	switch {
+	case absent:
+		w.r.Count("op.srv." + path + ".absent")
+		w.absent(path, it.hash, start)
+	case midStreamErr != nil:
+		w.r.Count("op.srv." + path + ".error-mid-stream")
+		if !w.o.damage {
+			w.r.Violation("C07:read-error-mid-stream:"+path, fmt.Sprintf("%s of a blob failed after %d bytes had been delivered: %v", path, len(got), midStreamErr), w.detail(map[string]any{"hash": it.hash}))
+		}
+	default:
+		w.r.Count("op.srv." + path + ".hit")
+		w.present(path, it.hash)
+		if !bytes.Equal(got, want) {
+			w.r.Violation("C07:torn-read:"+path, fmt.Sprintf("%s returned %d bytes that are not the blob (%d bytes)", path, len(got), len(want)), w.detail(map[string]any{"hash": it.hash}))
+		}
+	}
 }
 
 func (w *c07World) serverOp(client int, rng *rand.Rand) {
@@ -404,34 +571,144 @@ func (w *c07World) serverOp(client int, rng *rand.Rand) {
 	n := int64(len(it.content))
 	ctx, cancel := lib.Ctx()
 	defer cancel()
-	switch rng.IntN(6) {
+	d := &pb.Digest{Hash: it.hash, SizeBytes: n}
+	switch rng.IntN(13) {
 	case 0:
-		_, _ = w.srv.BSWrite(ctx, lib.ResUpload(uuidOf(rng), it.hash, n), it.content, 1+rng.IntN(32*lib.KiB))
-		w.r.Count("op.srv.bswrite")
+		_, err := w.srv.BSWrite(ctx, lib.ResUpload(uuidOf(rng), it.hash, n), it.content, 1+rng.IntN(32*lib.KiB))
+		w.srvUploaded("bswrite", it, ctx, err, fmt.Sprint(err))
 	case 1:
-		got, err := w.srv.BSRead(ctx, lib.ResBlobs(it.hash, n), 0, 0)
-		if err == nil && !bytes.Equal(got, it.content) {
-			w.r.Violation("C07:torn-read:bytestream", fmt.Sprintf("ByteStream.Read returned %d bytes that are not the blob", len(got)), w.detail(nil))
-		}
-		w.r.Count("op.srv.bsread." + okStr(err == nil))
+		_, err := w.srv.BSWrite(ctx, lib.ResUploadZstd(uuidOf(rng), it.hash, n), w.zstdOf(rng, it), 1+rng.IntN(32*lib.KiB))
+		w.srvUploaded("bswrite-zstd", it, ctx, err, fmt.Sprint(err))
 	case 2:
-		w.srv.HTTPPut("/cas/"+it.hash, it.content, nil)
-		w.r.Count("op.srv.httpput")
+		g := w.srv.HTTPPut("/cas/"+it.hash, it.content, nil)
+		if g.Err != nil {
+			w.r.Count("op.srv.httpput.transport-error")
+			return
+		}
+		var err error
+		if g.Status != 200 {
+			err = fmt.Errorf("status %d: %s", g.Status, tail(string(g.Body), 200))
+		}
+		w.srvUploaded("httpput", it, ctx, err, fmt.Sprint(err))
 	case 3:
-		g := w.srv.HTTPGet("/cas/"+it.hash, nil)
-		if g.Status == 200 && g.BodyErr == nil && !bytes.Equal(g.Body, it.content) {
-			w.r.Violation("C07:torn-read:http", fmt.Sprintf("HTTP GET returned %d bytes that are not the blob", len(g.Body)), w.detail(nil))
+		g := w.srv.HTTPPut("/cas/"+it.hash, w.zstdOf(rng, it), map[string]string{"Content-Encoding": "zstd", "X-Digest-SizeBytes": fmt.Sprint(n)})
+		if g.Err != nil {
+			w.r.Count("op.srv.httpput-zstd.transport-error")
+			return
 		}
-		w.r.Count(fmt.Sprintf("op.srv.httpget.%d", g.Status))
+		var err error
+		if g.Status != 200 {
+			err = fmt.Errorf("status %d: %s", g.Status, tail(string(g.Body), 200))
+		}
+		w.srvUploaded("httpput-zstd", it, ctx, err, fmt.Sprint(err))
 	case 4:
-		w.srv.HTTPPut("/cas/"+it.hash, zstdEncodeRand(rng, it.content), map[string]string{"Content-Encoding": "zstd", "X-Digest-SizeBytes": fmt.Sprint(n)})
-		w.r.Count("op.srv.httpput-zstd")
-	case 5:
-		resp, err := w.srv.CAS.BatchReadBlobs(ctx, &pb.BatchReadBlobsRequest{Digests: []*pb.Digest{{Hash: it.hash, SizeBytes: n}}})
-		if err == nil && len(resp.Responses) == 1 && resp.Responses[0].GetStatus().GetCode() == 0 && !bytes.Equal(resp.Responses[0].Data, it.content) {
-			w.r.Violation("C07:torn-read:batchread", "BatchReadBlobs returned wrong bytes", w.detail(nil))
+		req := &pb.BatchUpdateBlobsRequest{Requests: []*pb.BatchUpdateBlobsRequest_Request{{Digest: d, Data: it.content}}}
+		path := "batchupdate"
+		if rng.IntN(2) == 0 {
+			path = "batchupdate-zstd"
+			req.Requests[0].Data, req.Requests[0].Compressor = w.zstdOf(rng, it), pb.Compressor_ZSTD
 		}
-		w.r.Count("op.srv.batchread")
+		resp, err := w.srv.CAS.BatchUpdateBlobs(ctx, req)
+		if err == nil && (len(resp.Responses) != 1 || resp.Responses[0].GetStatus().GetCode() != 0) {
+			err = fmt.Errorf("per-blob status %v", resp.Responses)
+		}
+		w.srvUploaded(path, it, ctx, err, fmt.Sprint(err))
+	case 5, 6:
+		it = w.pickLookup(rng)
+		n = int64(len(it.content))
+		start := w.lookupStart()
+		got, err := w.srv.BSRead(ctx, lib.ResBlobs(it.hash, n), 0, 0)
+		if ctx.Err() != nil {
+			return
+		}
+		var mid error
+		if err != nil && lib.Code(err) != codes.NotFound {
+			if len(got) == 0 {
+				w.r.Count("op.srv.bsread.error-before-data." + lib.Code(err).String())
+				return
+			}
+			mid = err
+		}
+		w.srvRead("bsread", it, start, err != nil && mid == nil, got, mid, it.content)
+	case 7:
+		it = w.pickLookup(rng)
+		n = int64(len(it.content))
+		start := w.lookupStart()
+		got, err := w.srv.BSRead(ctx, lib.ResZstd(it.hash, n), 0, 0)
+		if ctx.Err() != nil {
+			return
+		}
+		var mid error
+		if err != nil && lib.Code(err) != codes.NotFound {
+			if len(got) == 0 {
+				w.r.Count("op.srv.bsread-zstd.error-before-data." + lib.Code(err).String())
+				return
+			}
+			mid = err
+		}
+		if err == nil {
+			dec, derr := lib.ZstdDecodeKP(got)
+			if derr != nil {
+				w.r.Violation("C07:torn-read:bsread-zstd", fmt.Sprintf("ByteStream.Read of compressed-blobs/zstd delivered %d bytes that do not decode: %v", len(got), derr), w.detail(map[string]any{"hash": it.hash}))
+				return
+			}
+			got = dec
+		}
+		w.srvRead("bsread-zstd", it, start, err != nil && mid == nil, got, mid, it.content)
+	case 8, 9:
+		it = w.pickLookup(rng)
+		start := w.lookupStart()
+		g := w.srv.HTTPGet("/cas/"+it.hash, nil)
+		if g.Err != nil || (g.Status != 200 && g.Status != 404) {
+			w.r.Count(fmt.Sprintf("op.srv.httpget.other.%d", g.Status))
+			return
+		}
+		w.srvRead("httpget", it, start, g.Status == 404, g.Body, g.BodyErr, it.content)
+	case 10, 11:
+		it = w.pickLookup(rng)
+		d = &pb.Digest{Hash: it.hash, SizeBytes: int64(len(it.content))}
+		req := &pb.BatchReadBlobsRequest{Digests: []*pb.Digest{d}}
+		path := "batchread"
+		if rng.IntN(2) == 0 {
+			path = "batchread-zstd"
+			req.AcceptableCompressors = []pb.Compressor_Value{pb.Compressor_ZSTD}
+		}
+		start := w.lookupStart()
+		resp, err := w.srv.CAS.BatchReadBlobs(ctx, req)
+		if err != nil || len(resp.Responses) != 1 {
+			w.r.Count("op.srv." + path + ".call-error")
+			return
+		}
+		x := resp.Responses[0]
+		switch codes.Code(x.GetStatus().GetCode()) {
+		case codes.NotFound:
+			w.srvRead(path, it, start, true, nil, nil, nil)
+		case codes.OK:
+			data := x.Data
+			if x.Compressor == pb.Compressor_ZSTD {
+				dec, derr := lib.ZstdDecodeKP(data)
+				if derr != nil {
+					w.r.Violation("C07:torn-read:"+path, fmt.Sprintf("BatchReadBlobs delivered %d zstd bytes that do not decode: %v", len(data), derr), w.detail(map[string]any{"hash": it.hash}))
+					return
+				}
+				data = dec
+			}
+			w.srvRead(path, it, start, false, data, nil, it.content)
+		default:
+			w.r.Count("op.srv." + path + ".status-other")
+		}
+	case 12:
+		var ds []*pb.Digest
+		for i := 0; i < 1+rng.IntN(12); i++ {
+			x := w.pickLookup(rng)
+			ds = append(ds, &pb.Digest{Hash: x.hash, SizeBytes: int64(len(x.content))})
+		}
+		start := w.lookupStart()
+		missing, err := w.srv.FindMissing(ctx, ds...)
+		w.r.Count("op.srv.findmissing")
+		if err == nil {
+			w.judgeFindMissing("grpc-findmissing", ds, missing, start)
+		}
 	}
 }
 
@@ -464,6 +741,7 @@ func (w *c07World) worker(client int, rng *rand.Rand, n int) {
 			}
 		}
 		w.open.Add(-1)
+		w.opsDone.Add(1)
 		w.r.Eval()
 	}
 }
@@ -493,7 +771,10 @@ func (w *c07World) damageFiles(rng *rand.Rand) []string {
 
 func runC07History(r *lib.Run, hc *lib.HookCtl, pool *lib.DirPool, o c07Opts) {
 	rng := rand.New(rand.NewPCG(o.seed, 7))
-	w := &c07World{r: r, o: o, hc: hc}
+	w := &c07World{r: r, o: o, hc: hc, casAck: map[string]int64{}, zenc: map[string][][]byte{}, varVals: map[string]struct{}{}, varGhost: map[string]struct{}{}, judgeFound: !o.pressure && !o.damage}
+	if w.judgeFound {
+		r.Count("histories.found-rule-judged")
+	}
 	dir := pool.Get()
 	defer pool.Put(dir)
 	opts := lib.ServerOpts{Dir: dir, MaxSize: o.max, Storage: o.storage, ZstdImpl: o.impl, NoGRPC: !o.server, NoHTTP: !o.server}
@@ -534,6 +815,10 @@ func runC07History(r *lib.Run, hc *lib.HookCtl, pool *lib.DirPool, o c07Opts) {
 		if w.px != nil && rng.IntN(2) == 0 {
 			w.px.SetBlob(cache.CAS, it.hash, it.content)
 		}
+	}
+	for i := 0; i < 2; i++ {
+		b := lib.GenBlob(rng, []int{1, 300, 5000}[rng.IntN(3)], "random", fmt.Sprintf("%s-ghost%d", o.caseID, i))
+		w.ghosts = append(w.ghosts, acctItem{hash: lib.Sha256Hex(b), content: b})
 	}
 	hc.StartTrace()
 	hc.SetRandomDelays(true)
@@ -576,24 +861,23 @@ func runC07History(r *lib.Run, hc *lib.HookCtl, pool *lib.DirPool, o c07Opts) {
 		select {
 		case <-done:
 		case <-time.After(600 * time.Second):
-			// Persistent-state oracle, not a latency threshold: a deadlock shows as goroutines PARKED inside
-			// bazel-remote request code (lock, semaphore, channel) while nothing is runnable. Background
-			// workers waiting for work are the baseline.
-			dump := lib.SelfGoroutineDump()
-			sig := lib.GoroutineSignatures(dump)
-			blocked := map[string]int{}
-			for k, v := range sig {
-				if strings.Contains(k, "performQueuedEvictions") || strings.Contains(k, "containsWorker") || strings.Contains(k, "ServeGRPC") ||
-					strings.Contains(k, "StartUploaders") || strings.Contains(k, "[runnable]") || strings.Contains(k, "[running]") ||
-					strings.Contains(k, "[IO wait]") || strings.Contains(k, "[syscall]") || strings.Contains(k, "[sleep]") {
-					continue
-				}
-				blocked[k] = v
+			// Persistent-state oracle, not a latency threshold: a deadlock shows as the SAME goroutines parked at the
+			// SAME place inside bazel-remote request code (lock, semaphore, channel) in two dumps taken 10 s apart,
+			// while no operation completed in between, no goroutine inside bazel-remote code is runnable / sleeping /
+			// in a system call and no harness client is runnable. Anything else is a slow machine: inconclusive.
+			before := w.opsDone.Load()
+			stuck, active, dump := lib.SelfStuckVerdict(10*time.Second, c07ParkedByDesign, []string{"(*c07World).worker"})
+			finished := false
+			select {
+			case <-done:
+				finished = true
+			default:
 			}
-			if len(blocked) > 0 {
-				r.Violation("C07:operation-never-returned", fmt.Sprintf("%d operation(s) still open 600 s after the workload started, with goroutines parked in bazel-remote code: %s", w.open.Load(), lib.SigString(blocked)), w.detail(map[string]any{"goroutines": lib.SigString(sig)}))
+			if len(stuck) > 0 && len(active) == 0 && !finished && w.opsDone.Load() == before {
+				r.Violation("C07:operation-never-returned", fmt.Sprintf("%d operation(s) still open 600 s after the workload started; in two goroutine dumps 10 s apart the same goroutines are parked at the same places in bazel-remote code, nothing completed and nothing is runnable: %s", w.open.Load(), lib.SigString(stuck)),
+					w.detail(map[string]any{"parked": lib.SigString(stuck), "goroutines": lib.SigString(lib.GoroutineSignatures(dump))}))
 			} else {
-				r.Inconclusive("watchdog: workload of " + o.caseID + " did not finish in 600 s but nothing is parked in bazel-remote code (slow machine)")
+				r.Inconclusive(fmt.Sprintf("watchdog: workload of %s did not finish in 600 s, but it is not provably dead-locked (finished meanwhile=%v, operations completed during the 10 s observation=%d, active goroutines=%d, identically parked=%d): slow machine", o.caseID, finished, w.opsDone.Load()-before, len(active), len(stuck)))
 			}
 			close(stop)
 			return
@@ -733,14 +1017,13 @@ func readAllOf(c disk.Cache, kind cache.EntryKind, hash string, size int64) ([]b
 }
 
 // S1: reader held after the index lookup while the key is overwritten and the old file unlinked.
-func (s *c07Scn) readerVsOverwrite(storage string, kind cache.EntryKind) {
+func (s *c07Scn) readerVsOverwrite(storage string, kind cache.EntryKind, pop string) {
 	s.name = "reader-vs-overwrite-unlink/" + kind.String()
+	if pop != "" && pop != storage {
+		s.name += "/stored-as-" + pop + "-reopened-" + storage
+	}
 	dir := s.pool.Get()
 	defer s.pool.Put(dir)
-	c, _, err := lib.NewCache(lib.ServerOpts{Dir: dir, MaxSize: 64 * lib.MiB, Storage: storage})
-	if err != nil {
-		return
-	}
 	ctx := context.Background()
 	var key string
 	var v1, v2 []byte
@@ -752,7 +1035,10 @@ func (s *c07Scn) readerVsOverwrite(storage string, kind cache.EntryKind) {
 		key = lib.RandHash(s.rng)
 		v1, v2 = c07Value(1, 1, 5000), c07Value(2, 2, 9000)
 	}
-	_ = c.Put(ctx, kind, key, int64(len(v1)), bytes.NewReader(v1))
+	c, err := openPopulated(dir, storage, pop, 64*lib.MiB, nil, func(c0 disk.Cache) { _ = c0.Put(ctx, kind, key, int64(len(v1)), bytes.NewReader(v1)) })
+	if err != nil {
+		return
+	}
 	g := s.hc.Gate("get.afterIndexUnlock", cache.LookupKey(kind, key), 1)
 	type res struct {
 		b   []byte
@@ -769,6 +1055,7 @@ func (s *c07Scn) readerVsOverwrite(storage string, kind cache.EntryKind) {
 	lib.WaitEvictionsDrained(c, 5*time.Second) // old file unlinked
 	g.Release()
 	rr := <-ch
+	reached = reached && g.Kept()
 	s.log = append(s.log, fmt.Sprintf("reader arrived=%v overwrite err=%v reader hit=%v err=%v len=%d", reached, perr, rr.hit, rr.err, len(rr.b)))
 	if reached && perr == nil {
 		switch {
@@ -840,23 +1127,28 @@ func (s *c07Scn) twoReadersCorrupt() {
 	reached := g.WaitArrived(5 * time.Second)
 	g.Release()
 	wg.Wait()
+	reached = reached && g.Kept()
 	s.log = append(s.log, fmt.Sprintf("%d readers, all at the removal point=%v", nReaders, reached))
 	s.finish(c, reached)
 }
 
 // S3: reader about to remove a failed entry while a writer re-adds the key.
-func (s *c07Scn) failedReaderVsReupload() {
+func (s *c07Scn) failedReaderVsReupload(storage string) {
 	s.name = "failed-reader-vs-reupload"
+	if storage != "zstd" {
+		s.name += "/stored-as-zstd-reopened-" + storage
+	}
 	dir := s.pool.Get()
 	defer s.pool.Put(dir)
-	c, _, err := lib.NewCache(lib.ServerOpts{Dir: dir, MaxSize: 64 * lib.MiB, Storage: "zstd"})
-	if err != nil {
-		return
-	}
 	ctx := context.Background()
 	b := lib.GenBlob(s.rng, 3000+s.rng.IntN(9000), "random", s.name)
 	h := lib.Sha256Hex(b)
-	_ = c.Put(ctx, cache.CAS, h, int64(len(b)), bytes.NewReader(b))
+	// the entry that will fail to read is a compressed file (it has a header that can be damaged); under the other
+	// storage mode the re-upload then replaces it by a file of the other format
+	c, err := openPopulated(dir, storage, "zstd", 64*lib.MiB, nil, func(c0 disk.Cache) { _ = c0.Put(ctx, cache.CAS, h, int64(len(b)), bytes.NewReader(b)) })
+	if err != nil {
+		return
+	}
 	if !corruptHeader(c, "cas/"+h) {
 		return
 	}
@@ -870,6 +1162,7 @@ func (s *c07Scn) failedReaderVsReupload() {
 	perr := c.Put(ctx, cache.CAS, h, int64(len(b)), bytes.NewReader(b)) // replaces the corrupt entry; acknowledged
 	g.Release()
 	<-done
+	reached = reached && g.Kept()
 	lib.WaitEvictionsDrained(c, 5*time.Second)
 	s.log = append(s.log, fmt.Sprintf("reader at removal point=%v, re-upload err=%v", reached, perr))
 	if reached && perr == nil {
@@ -908,21 +1201,32 @@ func (s *c07Scn) commitRefused(storage string) {
 	gb.Release()
 	wg.Wait()
 	lib.WaitEvictionsDrained(c, 5*time.Second)
-	s.log = append(s.log, fmt.Sprintf("A at commit=%v B reserved=%v; A err=%v B err=%v", r1, r2, ea, eb))
+	// the forced interleaving happened only if both roles were held at their gates until released (a gate that gave up
+	// waiting, or a role that needed longer than the arrival timeout, degrades the schedule: then A may legitimately
+	// commit first and be evicted by B's reservation)
+	reached := r1 && r2 && ga.Kept() && gb.Kept()
+	s.log = append(s.log, fmt.Sprintf("A at commit=%v B reserved=%v (gates kept: %v); A err=%v B err=%v", r1, r2, reached, ea, eb))
 	for _, x := range []struct {
 		k   string
 		v   []byte
 		err error
 	}{{ka, a, ea}, {kb, b, eb}} {
 		got, hit, _ := readAllOf(c, cache.RAW, x.k, -1)
-		if x.err == nil && (!hit || !bytes.Equal(got, x.v)) {
+		if reached && x.err == nil && (!hit || !bytes.Equal(got, x.v)) {
+			// in the target interleaving exactly one of the two commits is refused and nothing is ever evicted
 			s.viol("acknowledged-upload-lost", "an acknowledged upload is not readable afterwards (no other traffic)", s.detail(nil))
 		}
+		if hit && !bytes.Equal(got, x.v) {
+			s.viol("torn-read", fmt.Sprintf("a key written once reads back as %d bytes that are not the uploaded value", len(got)), s.detail(nil))
+		}
 		if x.err != nil && hit {
-			s.viol("refused-upload-present", "an upload that returned an error is present afterwards", s.detail(nil))
+			s.r.Count("scenario." + s.name + ".obs.refused-upload-present") // C01/C03 judge that; here an observation
+		}
+		if x.err != nil {
+			s.r.Count("scenario." + s.name + ".obs.refused")
 		}
 	}
-	s.finish(c, r1 && r2)
+	s.finish(c, reached)
 }
 
 // S5: proxy fetch about to commit while the same key is uploaded.
@@ -955,6 +1259,7 @@ func (s *c07Scn) fetchVsUpload(storage string) {
 	perr := c.Put(ctx, cache.CAS, h, int64(len(b)), bytes.NewReader(b))
 	g.Release()
 	rr := <-ch
+	reached = reached && g.Kept()
 	lib.WaitEvictionsDrained(c, 5*time.Second)
 	s.log = append(s.log, fmt.Sprintf("fetch at commit=%v upload err=%v fetch hit=%v err=%v", reached, perr, rr.hit, rr.err))
 	if rr.hit && !bytes.Equal(rr.b, b) {
@@ -993,6 +1298,7 @@ func (s *c07Scn) removerVsReupload(storage string) {
 	g.Release()
 	lib.WaitEvictionsDrained(c, 5*time.Second)
 	time.Sleep(2 * time.Millisecond)
+	reached = reached && g.Kept()
 	got, hit, err := readAllOf(c, cache.RAW, k, -1)
 	s.log = append(s.log, fmt.Sprintf("remover held=%v read-while-evicted hit=%v reupload err=%v final hit=%v", reached, hitBefore, perr, hit))
 	if reached && perr == nil {
@@ -1005,21 +1311,23 @@ func (s *c07Scn) removerVsReupload(storage string) {
 }
 
 // S8: reader about to drop a corrupt entry while space pressure evicts the key (and, variant, the key is uploaded again).
-func (s *c07Scn) failedReaderVsEviction(reupload bool) {
+func (s *c07Scn) failedReaderVsEviction(reupload bool, storage string) {
 	s.name = "failed-reader-vs-eviction"
 	if reupload {
 		s.name += "-and-reupload"
 	}
+	if storage != "zstd" {
+		s.name += "/stored-as-zstd-reopened-" + storage
+	}
 	dir := s.pool.Get()
 	defer s.pool.Put(dir)
-	c, _, err := lib.NewCache(lib.ServerOpts{Dir: dir, MaxSize: 40 * lib.KiB, Storage: "zstd"})
-	if err != nil {
-		return
-	}
 	ctx := context.Background()
 	b := lib.GenBlob(s.rng, 5000+s.rng.IntN(2000), "random", s.name)
 	h := lib.Sha256Hex(b)
-	_ = c.Put(ctx, cache.CAS, h, int64(len(b)), bytes.NewReader(b))
+	c, err := openPopulated(dir, storage, "zstd", 40*lib.KiB, nil, func(c0 disk.Cache) { _ = c0.Put(ctx, cache.CAS, h, int64(len(b)), bytes.NewReader(b)) })
+	if err != nil {
+		return
+	}
 	if !corruptHeader(c, "cas/"+h) {
 		return
 	}
@@ -1042,6 +1350,7 @@ func (s *c07Scn) failedReaderVsEviction(reupload bool) {
 	}
 	g.Release()
 	<-done
+	reached = reached && g.Kept()
 	lib.WaitEvictionsDrained(c, 5*time.Second)
 	s.log = append(s.log, fmt.Sprintf("reader at removal point=%v; key still indexed after pressure=%v; reupload=%v err=%v", reached, evicted, reupload, perr))
 	if reached && reupload && perr == nil {
@@ -1226,7 +1535,9 @@ func tail(s string, n int) string {
 func runC07(r *lib.Run) {
 	child := os.Getenv("C07_CHILD") != ""
 	r.SetRule("concurrent histories: 4-32 clients over 1-6 register keys (AC/RAW, self-describing values) + CAS pool + validated-AC lookups + proxy fetches + HTTP/gRPC traffic, tiny and large caches, files damaged underneath, " +
-		"random delays at the tag-guarded yield points; 6 targeted gate scenarios; the same workload again in a child built with -race. distinct = (history: storage, pressure, proxy, server, hash of hook-event order) and (scenario, reached)")
+		"random delays at the tag-guarded yield points; targeted gate scenarios (also on directories written under the other storage mode), deterministic streaming-read-vs-overwrite/eviction scenarios (disk API, ByteStream.Read, HTTP GET), several thousand failing uploads on one instance followed by ordinary traffic; " +
+		"found-rule: a CAS lookup (Get, GetZstd, Contains, FindMissing, ByteStream.Read both encodings, HTTP GET, BatchReadBlobs both encodings) that starts after an acknowledged upload (disk API, ByteStream.Write both encodings, HTTP PUT both encodings, BatchUpdateBlobs both encodings) must find it in histories without pressure/damage, never-uploaded digests must be absent; " +
+		"the same workload again in a child built with -race; the real executable built with -race under a mixed HTTP/gRPC workload. distinct = (history: storage, pressure, proxy, server, hash of hook-event order) and (scenario, reached)")
 	r.Assume("linearizability is checked on histories recorded at the disk.Cache API boundary with one logical clock; a porcupine timeout is inconclusive")
 	hc := lib.NewHookCtl(uint64(r.Seed))
 	hc.Install()
@@ -1243,6 +1554,13 @@ func runC07(r *lib.Run) {
 	t0 := time.Now()
 	// targeted scenarios
 	runGateScenarios(r, hc, pool, rng, nScn, "")
+	if !child {
+		scn := &c07Scn{r: r, hc: hc, pool: pool, rng: rng}
+		for i := 0; i < r.N(1, 4); i++ {
+			scn.log = nil
+			scn.failingUploadsDoNotExhaust([]string{"zstd", "uncompressed"}[(int(r.Seed)+i)%2], 5400)
+		}
+	}
 	r.CountN("time_ms.scenarios", time.Since(t0).Milliseconds())
 	t1 := time.Now()
 	runC07Histories(r, hc, pool, rng, nHist, child)
@@ -1266,22 +1584,47 @@ func runGateScenarios(r *lib.Run, hc *lib.HookCtl, pool *lib.DirPool, rng *rand.
 	scn := &c07Scn{r: r, hc: hc, pool: pool, rng: rng, only: only}
 	for i := 0; i < nScn; i++ {
 		st := []string{"zstd", "uncompressed"}[i%2]
-		for _, f := range []func(){
-			func() { scn.readerVsOverwrite(st, cache.AC) },
-			func() { scn.readerVsOverwrite(st, cache.RAW) },
-			func() { scn.readerVsOverwrite(st, cache.CAS) },
+		other := []string{"uncompressed", "zstd"}[i%2]
+		fs := []func(){
+			func() { scn.readerVsOverwrite(st, cache.AC, "") },
+			func() { scn.readerVsOverwrite(st, cache.RAW, "") },
+			func() { scn.readerVsOverwrite(st, cache.CAS, "") },
 			scn.twoReadersCorrupt,
-			scn.failedReaderVsReupload,
+			func() { scn.failedReaderVsReupload("zstd") },
 			func() { scn.commitRefused(st) },
 			func() { scn.fetchVsUpload(st) },
 			func() { scn.removerVsReupload(st) },
 			func() { scn.failFastConcurrentMisses(st) },
-			func() { scn.failedReaderVsEviction(false) },
-			func() { scn.failedReaderVsEviction(true) },
-		} {
+			func() { scn.failedReaderVsEviction(false, "zstd") },
+			func() { scn.failedReaderVsEviction(true, "zstd") },
+			// the same schedules on a directory whose entries were written under the OTHER storage mode
+			func() { scn.readerVsOverwrite(st, cache.CAS, other) },
+			func() { scn.failedReaderVsReupload("uncompressed") },
+			func() { scn.failedReaderVsEviction(i%2 == 0, "uncompressed") },
+		}
+		if only == "" && os.Getenv("C07_CHILD") == "" {
+			// "a read already streaming is unaffected": deterministic and single-threaded, judged by C07 only (not
+			// repeated under the race detector)
+			how := []string{"overwrite", "eviction"}[(i/2)%2]
+			fs = append(fs,
+				func() {
+					scn.streamingReadUnaffected(st, []cache.EntryKind{cache.AC, cache.RAW}[i%2], how, []string{"", "size-unknown"}[(i/2)%2])
+				},
+				func() { scn.streamingReadUnaffected(st, cache.CAS, how, []string{"", "offset", "zstd"}[i%3]) },
+				func() {
+					scn.streamingReadUnaffected(other, cache.CAS, []string{"eviction", "overwrite"}[(i/2)%2], []string{"zstd", "", "offset"}[i%3])
+				},
+			)
+			if i%3 == 0 {
+				fs = append(fs, func() { scn.streamingServerReadUnaffected(st, []string{"bytestream", "http-get"}[(i/3)%2]) })
+			}
+		}
+		for _, f := range fs {
 			scn.log = nil
 			scn.backend = false
+			ts := time.Now()
 			f()
+			r.CountN("scenario_ms."+scn.name, time.Since(ts).Milliseconds())
 		}
 		if r.Violations() > 12 {
 			break
